@@ -684,7 +684,7 @@ func Run(o *hx.Out, g *hx.Rng, tier string) {
 	o.Res.Rule = "a case is one two-endpoint history (settings, sends, flush/update, per-datagram fates incl. late duplicates, forged ACK/UNA/PUSH inputs in two thirds of the histories, recv, state = ownership layout) followed by a bounded fair-network drain; distinct = distinct op-line sequences (hash)"
 	n := 100
 	if tier == "thorough" {
-		n = 2000
+		n = 1200
 	}
 	kcp.VerifPoolLog(true)
 	defer kcp.VerifPoolLog(false)
